@@ -291,21 +291,25 @@ PY_SPEC = {
 
 
 def py_check(res):
-    facts = py_facts()
+    """Python codecs: role-stream layout (sa/rules/pylayout.py) = specification."""
+    from . import pylayout
+    facts = pylayout.facts()
     n = 0
     fn = {"leaf_writer": "Bucket.__getstate__", "set_writer": "Set.__getstate__",
           "leaf_reader": "Bucket.__setstate__", "set_reader": "Set.__setstate__",
           "tree_writer": "_Tree.__getstate__", "tree_reader": "_Tree.__setstate__"}
-    for codec, spec in PY_SPEC.items():
+    for codec, spec in pylayout.SPEC.items():
         for k, want in spec.items():
             n += 1
             g = facts[codec].get(k)
             if g != want:
                 res.findings.add(dict(
                     rule="STATE-SHAPE", function=fn[codec], file=REL, line=1,
-                    construct="%s.%s is %r (state format requires %r)" % (codec, k, g, want),
+                    construct="%s.%s is %s (state format requires %s)" % (codec, k, g, want),
                     detail="the Python state codec %s deviates from the "
-                           "shared state format: %s = %r, expected %r"
+                           "shared state format (leaf: (k0,v0,k1,v1,..)[, next]; "
+                           "set: (k0,k1,..)[, next]; tree: None | ((leafstate,),) | "
+                           "((c0,k1,c1,..), firstbucket)): %s = %s, expected %s"
                            % (fn[codec], k, g, want), path=[]))
     res.count("PY-STATE-SHAPE", n)
     res.extra["python_state_facts"] = facts
